@@ -56,7 +56,8 @@ def run_e1(prop, tier, seed, technique, plan, monitor, quick_budget, thorough_bu
             continue
         share = max(5.0, (t_end - now) * weight / max(remaining_weight, 1e-9))
         remaining_weight -= weight
-        deadline = min(t_end, now + share * 1.5)
+        # quick: the stated bounds are meant to complete, only the overall cap applies; thorough: no scenario may eat the others' time
+        deadline = t_end if tier == "quick" else min(t_end, now + share * 1.5)
         res = precomputed[id(scn)] if parallel_scenarios else engine.explore(scn, monitor, k, deadline, seed)
         if res.errors:
             raise common.HarnessError("; ".join(res.errors[:3]))
